@@ -354,10 +354,11 @@ impl Stats {
         format!(
             "{{\"generator\": {}, \"key_kinds\": {}, \"keys_per_case_buckets_of_5\": [{}], \"multibyte_chars_typed\": {}, \
              \"lines_submitted\": {}, \"commands_read\": {}, \"panics\": {}, \"cases_with_cursor_past_line\": {}, \
-             \"exhaustive_key_sequence_length\": {}, \"samples\": [{}]}}",
+             \"exhaustive_sweep\": {{\"all key sequences up to length {} over 15 keys x 3 histories (cases of this shard)\": {}}}, \"samples\": [{}]}}",
             m(&self.by_gen), m(&self.key_kinds),
             self.len_hist.iter().map(|x| x.to_string()).collect::<Vec<_>>().join(", "),
             self.multibyte_chars, self.submits, self.commands, self.panics, self.cursor_past_line, exhaustive_len,
+            self.by_gen.get("exhaustive").copied().unwrap_or(0),
             self.samples.iter().map(|s| format!("\"{}\"", s.replace('\\', "\\\\").replace('"', "\\\""))).collect::<Vec<_>>().join(", ")
         )
     }
